@@ -17,8 +17,7 @@ def polar_decompose(matrix, left=True):
     U, S, Vh = np.linalg.svd(matrix)
     if left:
         return U @ Vh, U @ (np.diag(S) @ U.transpose())
-    U_matrix = Vh.transpose() @ (np.diag(S) @ Vh)
-    return matrix @ np.linalg.inv(U_matrix), U_matrix
+    return U @ Vh, Vh.transpose() @ (np.diag(S) @ Vh)
 
 
 @nb.njit(fastmath=True)
